@@ -127,6 +127,10 @@ def run(seed=0):
             check("linspace", P.linspace(lift(0.25), lift(1.0), 4), _np.linspace(0.25, 1.0, 4))
             check("smax", symnp.s_max(lift(a[0]), 0.0) if a[0] == a[0] else 0.0, max(a[0], 0.0) if a[0] == a[0] else 0.0)
             check("smin", symnp.s_min(lift(a[0]), 1.0) if a[0] == a[0] else 0.0, min(a[0], 1.0) if a[0] == a[0] else 0.0)
+    for seq, want in (([lift(2.0)], 2.0), ([3], 3), ([1.0, lift(4.0), 2.0], 4.0)):
+        check("smax-iterable", symnp.s_max(v for v in seq), want)
+        check("smin-iterable", symnp.s_min(v for v in seq), min(_conc(v) for v in seq))
+    check("smax-args", symnp.s_max(lift(1.0), 2.0, 1.5), 2.0)
     # creation functions keep the object-dtype invariant
     for nm, arr in (("zeros", P.zeros(3)), ("ones", P.ones((2, 2))), ("empty", P.empty(2)), ("full", P.full(2, math.nan)),
                     ("eye", P.eye(2)), ("array", P.array([1.0, 2.0])), ("asarray", P.asarray(_np.array([1.0]))),
